@@ -212,6 +212,34 @@ def decay_bound(case):
     return None
 
 
+def strong_film(rng, ndim, ki, ko):
+    """a convective wall whose film is strong against the radial cell (cell Biot number dr*h/k = 4 or 16) on
+    a coarse grid (nr = 5) of a thin wall: the film resistance 1/h is then much smaller than the cell's dr/k,
+    the wall sits close to the fluid temperature, and the exact profile is still met to 2 dr/r_i of the
+    temperature differences in the problem.  Returns (failures, case, info)."""
+    c = make_case(rng, ndim, ki, ko, 5, True)
+    c.t = c.r * 0.0625
+    dr = c.t / (c.nr - 1)
+    biot = rng.choice([4.0, 16.0])
+    h = biot * float(c.mat_k[0]) / dr
+    c.film = h
+    c.params["hi"] = c.params["ho"] = h
+    if ki == "film":
+        c.inner_data2 = np.full((c.nz,), h)
+    p = c.params
+    f = exact_profile(ki, ko, c.r - c.t, c.r, float(c.mat_k[0]), p["Ti"], p["To"], p["qi"], p["qo"], h, h)
+    ex = f(np.linspace(c.r - c.t, c.r, c.nr))
+    refs = ([p["Ti"]] if ki in ("fix", "conv", "film") else []) + ([p["To"]] if ko in ("fix", "conv") else [])
+    span = max(float(np.max(np.abs(ex - Tr))) for Tr in refs)
+    err, spread, _ = steady_error(c)
+    info = dict(biot=biot, err=err, span=span)
+    tol = 2.0 * dr / (c.r - c.t) * span + 1e-9 * float(np.max(np.abs(ex)))
+    if err > tol:
+        return (["steady %s/%s %dD, strong film (cell Biot number %g, nr=5): error %.3e against the exact profile exceeds "
+                 "dr/r_i of the temperature differences (%.3e)" % (ki, ko, ndim, biot, err, tol)], c, info)
+    return [], c, info
+
+
 def check_pairing(rng, ndim, ki, ko):
     bad = []
     c1 = make_case(rng, ndim, ki, ko, 9, True)
@@ -291,6 +319,16 @@ def run(ctx):
                      sample=dict({"suite": "steady vs exact log profile", "ndim": ndim, "inner": i, "outer": o}, **info))
             for m in bad:
                 viol.append((c, "profile", m, {"ndim": ndim, "inner": i, "outer": o}))
+            if "conv" in (i, o) or i == "film":
+                try:
+                    bad, c, info = strong_film(rng, ndim, i, o)
+                except RuntimeError as e:
+                    raised.append((i, o, ndim, repr(e)))
+                    continue
+                ctx.case(("strongfilm", ndim, i, o, info["biot"]), nontrivial=True, tag="strong-film/%dD/%s-%s" % (ndim, i, o),
+                         sample=dict({"suite": "strong film on a coarse grid vs exact log profile", "ndim": ndim, "inner": i, "outer": o}, **info))
+                for m in bad:
+                    viol.append((c, "profile", m, {"ndim": ndim, "inner": i, "outer": o}))
     ctx.exhaustive = True
     ctx.obligation("every well-posed pairing could be evaluated (the real solver raised on none of them)",
                    not raised, "%d of %d pairings raised; first: %s" % (len(raised), npair, raised[:1]))
@@ -329,6 +367,9 @@ def replay(obj):
             print("FAILS: rejected:", e)
             return 1
     bad, c, info = check_pairing(random.Random(0), r["ndim"], r["inner"], r["outer"])
+    if "conv" in (r["inner"], r["outer"]) or r["inner"] == "film":
+        for biot_seed in range(4):
+            bad = bad + strong_film(random.Random(biot_seed), r["ndim"], r["inner"], r["outer"])[0]
     for m in bad:
         print("FAILS:", m)
     print(info)
